@@ -22,6 +22,7 @@
 #include <bxdecay0/genbbsub.h>
 
 #include "diffcore.h"
+#include "steer.h"
 
 using namespace verif;
 
@@ -34,6 +35,7 @@ struct Runner
   Tape tape;
   Stats st;
   bool y90 = false;
+  uint64_t last_sig = 0;
 
   bool init()
   {
@@ -65,6 +67,7 @@ struct Runner
   // one event with the tape as currently pinned; returns draws
   size_t one(const std::string & steer)
   {
+    last_sig = 0;
     RefEvent re;
     bxdecay0::event pe, pe2;
     // reference
@@ -122,7 +125,8 @@ struct Runner
       std::string key = name + "|" + c.kind + "|" + re.signature(c.index < 0 ? 0 : c.index);
       record(st.mm, key, c.detail);
     }
-    st.sigs.insert(hash_str(re.signature(1000)));
+    last_sig = hash_str(re.signature(1000));
+    st.sigs.insert(last_sig);
     // C04 monitor on the port's event
     std::string wfk, wfd;
     if (!wellformed(pe, name, 12.0, wfk, wfd)) record(st.wf, name + "|" + wfk, wfd);
@@ -222,13 +226,22 @@ int main(int argc, char ** argv)
         R.one(fmt("cells %zu=%.17g,%zu=%.17g", a, va, b, vb));
       }
     }
+    // (v) deep steering: frontier search over pinned cells, guided by new branch signatures of the reference event
+    DeepSteerStats ds;
+    long deep_events = getenv("VERIF_DEEP_EVENTS") ? atol(getenv("VERIF_DEEP_EVENTS")) : 0;
+    if (deep_events > 0) {
+      ds = deep_steer(R.tape, seed, (stream0 << 24) + (1ULL << 23), thr, deep_events, 4, [&](const std::string & steer, size_t & d) {
+        d = R.one(steer);
+        return R.last_sig;
+      });
+    }
     // emit
     Stats & s = R.st;
     std::sort(s.draws_hist.begin(), s.draws_hist.end());
     size_t p999 = s.draws_hist.empty() ? 0 : s.draws_hist[(size_t)(0.999 * (s.draws_hist.size() - 1))];
     fprintf(OUT, "{\"name\":%s,\"events\":%ld,\"distinct_signatures\":%zu,\"max_draws\":%zu,\"p999_draws\":%zu,\"cells\":%zu,\"thresholds\":%zu,"
-                 "\"y90_waived\":%ld,\"cap_hits\":%ld,\"sample\":%s,",
-            jstr(name).c_str(), s.events, s.sigs.size(), s.max_draws, p999, K, thr.size(), s.y90_waived, s.cap_hits,
+                 "\"y90_waived\":%ld,\"cap_hits\":%ld,\"deep\":[%ld,%ld,%ld,%ld,%ld],\"sample\":%s,",
+            jstr(name).c_str(), s.events, s.sigs.size(), s.max_draws, p999, K, thr.size(), s.y90_waived, s.cap_hits, ds.events, ds.nodes_expanded, ds.nodes_found, ds.max_depth, ds.frontier_left,
             s.sample.empty() ? "null" : s.sample.c_str());
     emit_mismatches(OUT, "mismatches", s.mm);
     fprintf(OUT, ",");
